@@ -1950,6 +1950,64 @@ fn main() {
             });
         }
     }
+    // 6a. FAIR rounds (c18_recovers_under_fair_rounds): 2-4 server loops, every all-dead leftover, 15 rounds in each of which
+    //     every contender that can still step takes 1-2 steps in a random order (timer expired, endpoint unreachable, deadline
+    //     not passed): at some point of the schedule there must be a live guard
+    let nfair = if search { 60 } else if thorough { 300 } else { 36 };
+    for k in 0..nfair {
+        let lock = [LockF::Absent, LockF::Half(DEAD), LockF::Rec(DEAD)][k % 3].clone();
+        let meta = [MetaF::Absent, MetaF::Rec(DEAD), MetaF::Rec(DEAD2)][(k / 3) % 3].clone();
+        let n = 2 + (k / 9) % 3;
+        let c = Case { lock, meta, bystander: None, bystander_guard: true, cont: (0..n).map(|i| Contender { pid: 101 + i as u64, drv: Drv::Server }).collect(), assume_grace: true, real_pids: false };
+        let mut r2 = r.fork();
+        let mut queue: Vec<usize> = vec![];
+        let mut rounds = 0usize;
+        let mut pol = |_p: usize, st: &[usize], pcs: &[u64]| -> Option<Ev> {
+            loop {
+                if let Some(a) = queue.pop() {
+                    // a contender that finished meanwhile, or serves (a step would begin its shutdown), is skipped
+                    if st.contains(&a) && pcs[a] != 21 {
+                        return Some(Ev::Step(a, 2));
+                    }
+                    continue;
+                }
+                if rounds == 15 {
+                    return None;
+                }
+                rounds += 1;
+                let mut round: Vec<usize> = st.iter().copied().filter(|a| pcs[*a] != 21).collect();
+                if round.is_empty() {
+                    return None;
+                }
+                for a in round.clone() {
+                    if r2.chance(1, 3) {
+                        round.push(a);
+                    }
+                }
+                // shuffle
+                for i in (1..round.len()).rev() {
+                    let j = r2.below(i as u64 + 1) as usize;
+                    round.swap(i, j);
+                }
+                queue = round;
+            }
+        };
+        let o = run_case(&c, &mut pol, 15 * 8 * 2 + 10);
+        let recovered = o.max_holders >= 1;
+        let events = o.events.clone();
+        record(&mut res, &mut w, "fair_rounds", &c, o, false);
+        res.oracle_checks += 1;
+        if !recovered {
+            let class = "no_authority_after_15_fair_rounds";
+            res.bump(&format!("finding={class}"));
+            res.oracle_violations.push(OracleViolation {
+                case_id: res.evaluations as i64 - 1,
+                what: format!("{n} server loops from the all-dead leftover lock={:?} meta={:?}, 15 rounds in which every contender stepped at least once (timer expired, endpoint unreachable, deadline not passed): nobody ever held the guard", c.lock, c.meta),
+                class: class.into(),
+                replay: case_json(&c, &events),
+            });
+        }
+    }
     // 6b. the REAL client loop (rip binary, RIP_VERIF_ENSURE driver) on a scripted clock against scripted lock / meta states:
     //     compared poll by poll with Model/AuthorityGrace.v (client_run full_table), judged by grace_oracle
     let mut wg = CaseWriter::new(&a.out.join("grace"), "Model.AuthorityGrace", "check_case", "model_obs", 150).with_base(100_000);
